@@ -568,6 +568,13 @@ func (w *World) applyLocked(c *Call, f Kind, choice, nparked int) result {
 	return res
 }
 
+// SeqNow is the number of events applied so far (safe from any goroutine).
+func (w *World) SeqNow() int {
+	w.mu.Lock()
+	defer w.mu.Unlock()
+	return w.Seq
+}
+
 // EventHash is the hash of the rendered event log so far.
 func (w *World) EventHash() string { return hex.EncodeToString(w.hash.Sum(nil)) }
 
